@@ -1034,7 +1034,7 @@ pub fn c07(thorough: bool, seed: u64) -> CheckOutput {
     let orders: std::sync::Mutex<Vec<Vec<usize>>> = std::sync::Mutex::new(Vec::new());
     let mismatches: std::sync::Mutex<Vec<(usize, usize)>> = std::sync::Mutex::new(Vec::new());
     let completion: std::sync::Mutex<Vec<usize>> = std::sync::Mutex::new(Vec::new());
-    let rounds = if thorough { 3 } else { 1 };
+    let rounds = if thorough { 4 } else { 2 };
     for round in 0..rounds {
         std::thread::scope(|s| {
             for t in 0..threads {
